@@ -1114,22 +1114,27 @@ func (s *vSim) randomRun(o simOpts) {
 		nInit = 3
 		voters = []uint64{1, 2, 3}
 	}
-	if o.scenarios && s.tid%32 == 23 {
+	if o.scenarios && (s.tid%64 == 47 || s.tid%64 == 63) {
+		scen = 11
+		nInit = 3
+		voters = []uint64{1, 2, 3}
+	}
+	if o.scenarios && s.tid%64 == 23 {
 		scen = 8
 		nInit = 3
 		voters = []uint64{1, 2, 3}
 	}
-	if o.scenarios && s.tid%32 == 15 {
+	if o.scenarios && s.tid%64 == 15 {
 		scen = 9
 		nInit = 3
 		voters = []uint64{1, 2, 3}
 	}
-	if o.scenarios && s.tid%32 == 31 {
+	if o.scenarios && s.tid%64 == 31 {
 		scen = 10
 		nInit = 3
 		voters = []uint64{1, 2, 3}
 	}
-	if o.scenarios && s.tid%32 == 7 {
+	if o.scenarios && s.tid%64 == 7 {
 		scen = 7
 		nInit = 3
 		voters = []uint64{1, 2, 3}
@@ -1747,7 +1752,51 @@ func (s *vSim) scenario10() {
 	s.settle(int(s.et), nil, nil, nil, nil)
 }
 
+// scenario11 (three voters): a leader appends a membership change that reaches nobody, loses power and
+// comes back; its log store still holds the entry (not committed, so not in the in-memory part of the log
+// after the restart). It is the only replica whose timer runs, wins the election with its longer log and
+// becomes leader with that change pending: a second membership change submitted at once must be dropped.
+func (s *vSim) scenario11(nextID uint64) uint64 {
+	s.settle(40, nil, nil, nil, func() bool { return s.leaderNode() != nil && s.leaderNode().applied >= 4 })
+	l := s.leaderNode()
+	if l == nil {
+		return nextID
+	}
+	only := func(ids ...uint64) map[uint64]bool {
+		m := map[uint64]bool{}
+		for _, n := range s.upNodes() {
+			m[n.id] = true
+		}
+		for _, id := range ids {
+			delete(m, id)
+		}
+		return m
+	}
+	all := func(m pb.Message) bool { return m.From == l.id || m.To == l.id }
+	s.proposeCC(l, opAddNonVoting, nextID)
+	s.settle(1, all, nil, only(), nil)
+	s.crash(l)
+	s.restart(l)
+	// nobody else campaigns; the restarted replica times out and is elected
+	s.settle(4*int(s.et), nil, nil, only(l.id), func() bool { return l.peer.raft.state == leader })
+	if l.peer.raft.state != leader {
+		return nextID
+	}
+	s.proposeCC(l, opAddNonVoting, nextID+1)
+	s.settle(8, nil, nil, nil, nil)
+	for _, id := range []uint64{nextID, nextID + 1} {
+		if _, ok := s.firstKind[id]; ok && s.nodes[id] == nil && len(s.nodes) < 5 {
+			s.join(id, "N")
+		}
+	}
+	s.settle(4, nil, nil, nil, nil)
+	return nextID + 2
+}
+
 func (s *vSim) scenario(k int, nextID uint64) uint64 {
+	if k == 11 {
+		return s.scenario11(nextID)
+	}
 	if k == 10 {
 		s.scenario10()
 		return nextID
